@@ -140,6 +140,8 @@ impl<'a> Writer<'a> {
         self.write_chunk_impl(DataKind::SnapshotDelta, Some(delta))
     }
     pub fn write_message(&mut self, msg: &[u8]) -> Result<(), WriteError> {
+        // The reader unpacks messages into a buffer of this size.
+        assert!(msg.len() <= MAX_SNAPSHOT_SIZE, "overlong message");
         self.buffer2.clear();
         with_packer(
             &mut self.buffer2,
